@@ -125,7 +125,15 @@ func checkC08(c *hx.Ctx) {
 		}
 
 		// ---------- (2) commitment / reveal relations
-		for _, k := range []*ref.Key{d.CurR, d.CurU} {
+		// every key also in a copy that carries the optional `nonce` member (legal in a JWK used for commitments; two keys
+		// that differ only in the nonce must have different commitments and reveal values) - seeded C08-19
+		nonceR, nonceU := *d.CurR, *d.CurU
+		nonceR.Nonce = ref.B64([]byte(fmt.Sprintf("nonce-%d-%d", i, r.Intn(1<<20))))
+		nonceU.Nonce = ref.B64([]byte(fmt.Sprintf("n%d", r.Intn(1<<20))))
+		for _, k := range []*ref.Key{d.CurR, d.CurU, &nonceR, &nonceU} {
+			if k.Nonce != "" {
+				c.Count("commitment_relations_key_with_nonce")
+			}
 			for _, hc := range []uint64{ref.SHA256, ref.SHA512} {
 				c.Eval()
 				j, err := libJWK(k)
